@@ -128,3 +128,223 @@ Proof.
     exists done. cbn. repeat split; auto. unfold wire_ok, mid in *. cbn. destruct Hw as [He Hm]. eauto.
   - (* LClose *) inv_step H; wpc Hw; constructor; cbn; auto; fin done.
 Qed.
+
+Lemma inv_run : forall ls s s', Inv s -> wrun s ls = Some s' -> Inv s'.
+Proof.
+  induction ls as [|l r IH]; cbn; intros s s' Hi H.
+  - injection H as <-; auto.
+  - destruct (wstep s l) eqn:E; [|discriminate]. eapply IH; [eapply inv_step; eauto|exact H].
+Qed.
+
+Lemma wrun_app : forall ls1 ls2 s,
+  wrun s (ls1 ++ ls2) = match wrun s ls1 with Some s1 => wrun s1 ls2 | None => None end.
+Proof.
+  induction ls1 as [|l r IH]; cbn; intros; [reflexivity|]. destruct (wstep s l); [apply IH|reflexivity].
+Qed.
+
+(* ------------------------------------------------------------------ what is on the wire *)
+Lemma inv_shape s : Inv s ->
+  exists done partial rest, ws_puts s = done ++ rest /\ ws_wire s = frames done ++ partial /\
+    (partial = [] \/ exists e rest', rest = e :: rest' /\ strict_prefix_of partial (e_frame e)).
+Proof.
+  intros [_ (done & Hs & _ & Hw) _ _ _ _]. unfold wire_ok in Hw.
+  destruct (ws_w s) eqn:W; cbn [held app] in Hs.
+  1-3,8: exists done, [], (ws_q s); rewrite app_nil_r; destruct Hw; auto.
+  1-3: exists done, [], (e :: ws_q s); rewrite app_nil_r; destruct Hw; auto.
+  - destruct Hw as [(p & H1 & H2 & H3) _]. exists done, p, (e :: ws_q s). repeat split; auto.
+    right. exists e, (ws_q s). split; auto. exists data. auto.
+  - destruct Hw as [_ (p & H1 & H2 & H3)]. exists done, p, (e :: ws_q s). repeat split; auto.
+    right. exists e, (ws_q s). split; auto. exists (unsent_of_err x). auto.
+  - destruct Hw as (x & _ & p & H1 & H2 & H3). exists done, p, (e :: ws_q s). repeat split; auto.
+    right. exists e, (ws_q s). split; auto. exists (unsent_of_err x). auto.
+  - destruct Hw as (x & _ & p & H1 & H2 & H3). exists done, p, (e :: ws_q s). repeat split; auto.
+    right. exists e, (ws_q s). split; auto. exists (unsent_of_err x). auto.
+Qed.
+
+Lemma shape_prefix_of puts wire done partial rest :
+  puts = done ++ rest -> wire = frames done ++ partial ->
+  (partial = [] \/ exists (e : entry) rest', rest = e :: rest' /\ strict_prefix_of partial (e_frame e)) ->
+  prefix_of wire (frames puts).
+Proof.
+  intros -> -> [->|(e & r' & -> & u & _ & Hu)]; rewrite frames_app.
+  - exists (frames rest). rewrite app_nil_r. reflexivity.
+  - exists (u ++ frames r'). change (e :: r') with ([e] ++ r'). rewrite frames_app, frames_one, Hu, <- !app_assoc. reflexivity.
+Qed.
+
+(* ------------------------------------------------------------------ failure *)
+Lemma inv_err_failed s u : Inv s -> ws_err s = Some u -> failed_pc (ws_w s) = true.
+Proof.
+  intros [_ (done & _ & _ & Hw) _ _ _ _] He. unfold wire_ok in Hw.
+  destruct (ws_w s); try reflexivity; destruct Hw; congruence.
+Qed.
+
+Lemma failed_step s l s' : wstep s l = Some s' -> failed_pc (ws_w s) = true ->
+  failed_pc (ws_w s') = true /\ ws_wire s' = ws_wire s /\ ws_err s' = ws_err s.
+Proof.
+  intros H F. destruct l; inv_step H; cbn in *; try discriminate; auto;
+  match goal with E : ws_w s = _ |- _ => rewrite E in F; try discriminate F end.
+Qed.
+
+Lemma failed_run : forall ls s s', wrun s ls = Some s' -> failed_pc (ws_w s) = true ->
+  ws_wire s' = ws_wire s /\ ws_err s' = ws_err s.
+Proof.
+  induction ls as [|l r IH]; cbn; intros s s' H F.
+  - injection H as <-; auto.
+  - destruct (wstep s l) eqn:E; [|discriminate]. destruct (failed_step _ _ _ E F) as (F' & W & X).
+    destruct (IH _ _ H F') as [W' X']. split; congruence.
+Qed.
+
+Lemma inv_failure_shape s u : Inv s -> ws_err s = Some u ->
+  exists done e rest partial, ws_puts s = done ++ e :: rest /\ ws_wire s = frames done ++ partial /\
+    e_frame e = partial ++ unsent_of_err u /\ unsent_of_err u <> [].
+Proof.
+  intros [_ (done & Hs & _ & Hw) _ _ _ _] He. unfold wire_ok in Hw.
+  destruct (ws_w s) eqn:W; cbn [held app] in Hs; try (destruct Hw; congruence).
+  - destruct Hw as [E (p & H1 & H2 & H3)]. assert (x = u) by congruence. subst. exists done, e, (ws_q s), p. auto.
+  - destruct Hw as (x & E & p & H1 & H2 & H3). assert (x = u) by congruence. subst. exists done, e, (ws_q s), p. auto.
+  - destruct Hw as (x & E & p & H1 & H2 & H3). assert (x = u) by congruence. subst. exists done, e, (ws_q s), p. auto.
+Qed.
+
+(* the error value is only ever produced by a refused write *)
+Lemma err_step s l s' : wstep s l = Some s' -> accepted_write l = true -> ws_err s = None -> ws_err s' = None.
+Proof. intros H A E. destruct l; inv_step H; cbn in *; auto; try discriminate.
+ rewrite Heqb0 in A. discriminate.
+Qed.
+
+Lemma err_run : forall ls s s', wrun s ls = Some s' -> forallb accepted_write ls = true -> ws_err s = None -> ws_err s' = None.
+Proof.
+  induction ls as [|l r IH]; cbn; intros s s' H A E.
+  - injection H as <-; auto.
+  - destruct (wstep s l) eqn:X; [|discriminate]. apply andb_prop in A as [A1 A2]. eapply IH; eauto using err_step.
+Qed.
+
+(* ------------------------------------------------------------------ the ghost put log is the trace's puts *)
+Lemma lputs_cons l r : lputs (l :: r) = lputs [l] ++ lputs r.
+Proof. destruct l; reflexivity. Qed.
+
+Lemma puts_step s l s' : wstep s l = Some s' ->
+  exists more, ws_puts s' = ws_puts s ++ more /\ map put_of more = lputs [l] /\ ws_ndone s <= ws_ndone s'.
+Proof.
+  intros H. destruct l; inv_step H; cbn; try (exists []; rewrite app_nil_r; auto; fail).
+  match goal with E : beq _ _ = true |- _ => apply beq_eq in E; subst end.
+  eexists. split; [reflexivity|]. auto.
+Qed.
+
+Lemma puts_run : forall ls s s', wrun s ls = Some s' ->
+  exists more, ws_puts s' = ws_puts s ++ more /\ map put_of more = lputs ls /\ ws_ndone s <= ws_ndone s'.
+Proof.
+  induction ls as [|l r IH]; cbn [wrun]; intros s s' H.
+  - injection H as <-. exists []. rewrite app_nil_r. auto.
+  - destruct (wstep s l) eqn:E; [|discriminate].
+    destruct (puts_step _ _ _ E) as (m1 & P1 & L1 & N1). destruct (IH _ _ H) as (m2 & P2 & L2 & N2).
+    exists (m1 ++ m2). rewrite P2, P1, <- app_assoc, map_app, L1, L2, (lputs_cons l r). repeat split; auto. lia.
+Qed.
+
+(* ------------------------------------------------------------------ program order of each submitter *)
+Definition thr_msgs (t : nat) (l : list entry) : list bytes :=
+  map e_msg (filter (fun e => Nat.eqb (e_thr e) t) l).
+Definition prog_at (s : wstate) (t : nat) : list bytes :=
+  match nth_error (ws_subs s) t with Some x => sb_prog x | None => [] end.
+Definition order_inv (progs : list (list bytes)) (s : wstate) : Prop :=
+  forall t, nth t progs [] = thr_msgs t (ws_puts s) ++ prog_at s t.
+
+Lemma of_thread_put_of t l : of_thread t (map put_of l) = thr_msgs t l.
+Proof.
+  unfold of_thread, thr_msgs. induction l as [|e l IH]; cbn; [reflexivity|].
+  unfold put_of at 1. cbn. destruct (Nat.eqb (e_thr e) t); cbn; rewrite IH; reflexivity.
+Qed.
+
+Lemma thr_msgs_app t a b : thr_msgs t (a ++ b) = thr_msgs t a ++ thr_msgs t b.
+Proof. unfold thr_msgs. rewrite filter_app, map_app. reflexivity. Qed.
+
+Lemma order_init b pend progs : order_inv progs (winit b pend progs).
+Proof.
+  intros t. unfold prog_at. cbn. revert t. induction progs as [|p r IH]; intros [|t]; cbn; auto.
+Qed.
+
+Lemma order_step progs s l s' : order_inv progs s -> wstep s l = Some s' -> order_inv progs s'.
+Proof.
+  intros O H. destruct l; try (inv_step H; exact O).
+  - (* LChk *) inv_step H; intros t0; specialize (O t0); unfold prog_at in *; cbn;
+    (destruct (Nat.eq_dec t0 t) as [->|N];
+     [ erewrite nth_error_upd_same by eassumption; match goal with E : nth_error _ t = _ |- _ => rewrite E in O end; exact O
+     | rewrite nth_error_upd_other by exact N; exact O ]).
+  - (* LPut *) inv_step H. match goal with E : beq _ _ = true |- _ => apply beq_eq in E; subst end.
+    intros t0; specialize (O t0); unfold prog_at in *; cbn [ws_puts ws_subs set_puts set_q set_subs]. rewrite thr_msgs_app. unfold thr_msgs at 2. cbn [filter map e_thr fst snd e_msg].
+    destruct (Nat.eq_dec t0 t) as [->|N].
+    + erewrite nth_error_upd_same by eassumption. rewrite Nat.eqb_refl. cbn.
+      match goal with E : nth_error _ t = _ |- _ => rewrite E in O end. cbn in O. rewrite O, <- app_assoc. reflexivity.
+    + rewrite nth_error_upd_other by exact N. replace (Nat.eqb t t0) with false by (symmetry; apply Nat.eqb_neq; congruence).
+      cbn. rewrite app_nil_r. exact O.
+Qed.
+
+Lemma order_run progs : forall ls s s', order_inv progs s -> wrun s ls = Some s' -> order_inv progs s'.
+Proof.
+  induction ls as [|l r IH]; cbn; intros s s' O H.
+  - injection H as <-; auto.
+  - destruct (wstep s l) eqn:E; [|discriminate]. eapply IH; [eapply order_step; eauto|exact H].
+Qed.
+
+(* ------------------------------------------------------------------ the put log in terms of the trace alone *)
+Definition base_after (b : base) (l : label) : base := match l with LSetBase b' => b' | _ => b end.
+Lemma lentries_cons b l r : lentries b (l :: r) = lentries b [l] ++ lentries (base_after b l) r.
+Proof. destruct l; reflexivity. Qed.
+
+Lemma entries_step s l s' : wstep s l = Some s' ->
+  ws_puts s' = ws_puts s ++ lentries (ws_base s) [l] /\ ws_base s' = base_after (ws_base s) l.
+Proof.
+  intros H. destruct l; inv_step H; cbn; rewrite ?app_nil_r; auto.
+  match goal with E : beq _ _ = true |- _ => apply beq_eq in E; subst end. auto.
+Qed.
+
+Lemma entries_run : forall ls s s', wrun s ls = Some s' -> ws_puts s' = ws_puts s ++ lentries (ws_base s) ls.
+Proof.
+  induction ls as [|l r IH]; cbn [wrun]; intros s s' H.
+  - injection H as <-. cbn. rewrite app_nil_r. reflexivity.
+  - destruct (wstep s l) eqn:E; [|discriminate]. destruct (entries_step _ _ _ E) as [P B].
+    rewrite (IH _ _ H), P, B, (lentries_cons _ l r), app_assoc. reflexivity.
+Qed.
+
+(* ------------------------------------------------------------------ statements of Props/C02.v *)
+Lemma c02_sched_wire_prefix : forall b progs ls s, wrun (winit b false progs) ls = Some s ->
+  prefix_of (ws_wire s) (frames (lentries b ls)) /\
+  exists done partial rest, lentries b ls = done ++ rest /\ ws_wire s = frames done ++ partial /\
+    (partial = [] \/ exists e rest', rest = e :: rest' /\ strict_prefix_of partial (e_frame e)).
+Proof.
+  intros b progs ls s H. pose proof (entries_run _ _ _ H) as P. cbn in P.
+  pose proof (inv_run _ _ _ (inv_init b progs) H) as I.
+  destruct (inv_shape _ I) as (done & partial & rest & H1 & H2 & H3). rewrite P in H1.
+  split; [eapply shape_prefix_of; eauto|]. exists done, partial, rest. auto.
+Qed.
+
+Lemma c02_sched_drained : forall b progs ls s, wrun (winit b false progs) ls = Some s ->
+  ws_q s = [] -> (ws_w s = PTop \/ ws_w s = PSel) -> ws_wire s = frames (lentries b ls).
+Proof.
+  intros b progs ls s H Q W. pose proof (entries_run _ _ _ H) as P. cbn in P.
+  destruct (inv_run _ _ _ (inv_init b progs) H) as [_ (done & Hs & _ & Hw) _ _ _ _].
+  unfold wire_ok in Hw. rewrite Q in Hs. destruct W as [W|W]; rewrite W in *; cbn in Hs; rewrite app_nil_r in Hs;
+  destruct Hw as [Hw _]; rewrite Hw; congruence.
+Qed.
+
+Lemma c02_sched_failure : forall b progs ls s u, wrun (winit b false progs) ls = Some s -> ws_err s = Some u ->
+  (exists done e rest partial, lentries b ls = done ++ e :: rest /\ ws_wire s = frames done ++ partial /\
+     e_frame e = partial ++ unsent_of_err u /\ unsent_of_err u <> []) /\
+  (forall ls' s', wrun s ls' = Some s' -> ws_wire s' = ws_wire s /\ ws_err s' = Some u).
+Proof.
+  intros b progs ls s u H E. pose proof (entries_run _ _ _ H) as P. cbn in P.
+  pose proof (inv_run _ _ _ (inv_init b progs) H) as I. split.
+  - destruct (inv_failure_shape _ _ I E) as (done & e & rest & p & H1 & H2). rewrite P in H1. eauto 8.
+  - intros ls' s' H'. destruct (failed_run _ _ _ H' (inv_err_failed _ _ I E)). split; congruence.
+Qed.
+
+Lemma c02_sched_no_spurious_failure : forall b progs ls s, wrun (winit b false progs) ls = Some s ->
+  forallb accepted_write ls = true -> ws_err s = None.
+Proof. intros b progs ls s H A. eapply err_run; eauto. Qed.
+
+Lemma c02_sched_program_order : forall b progs ls s t, wrun (winit b false progs) ls = Some s ->
+  exists rest, nth t progs [] = of_thread t (lputs ls) ++ rest.
+Proof.
+  intros b progs ls s t H. destruct (puts_run _ _ _ H) as (more & P & L & _). cbn in P.
+  pose proof (order_run progs _ _ _ (order_init b false progs) H t) as O.
+  exists (prog_at s t). rewrite <- L, of_thread_put_of, <- P. exact O.
+Qed.
